@@ -251,3 +251,4 @@ def run(run: Run):
     run.not_decided.append("termination of the traversal (finite-graph argument over the visited set)")
     run.assume("Address objects are compared by value; the model identifies equal addresses (one wrapper per address)",
                "the successor relation is *defined* from the schema (defines_succ_* preconditions are definitional, not checked against a caller)")
+    run.native_standin("props.C16_native", "scenarios")
